@@ -33,7 +33,7 @@ def run(c):
     logf = os.path.join(c.wd, "oracle.ndjson")
     runs, steps = (60, 60) if quick else (1500, 120)
     vlib.run_vh(["oracle", "--vectors", tfile, "--out", logf, "--seed", str(c.seed), "--runs", str(runs), "--steps", str(steps)])
-    tr = vlib.trace_check(c.wd, "Trace_Oracle", "Trace_Oracle.cfg", logf, workers=8)
+    tr = vlib.trace_check(c.wd, "Trace_Oracle", "Trace_Oracle.cfg", logf, workers=4)
     c.judge(tr, logf)
     nodes = vlib.read_log(logf)
     c.samples = [nodes[0], nodes[len(nodes) // 2], nodes[-1]]
